@@ -1,4 +1,4 @@
-use a5sim::batch::{batch_main, work_main, BatchArgs, WorkArgs};
+use a5sim::batch::{batch_main, work_main, worlds_main, BatchArgs, WorkArgs, WorldArgs};
 use a5sim::replay::{exec_file_fresh, exec_file_here, load};
 use std::collections::HashMap;
 
@@ -36,6 +36,7 @@ fn main() {
     let (pos, m) = args_map(&argv[1..]);
     match argv[0].as_str() {
         "ref" => a5sim::procs::ref_main(),
+        "zygote" => a5sim::procs::zygote_main(get(&m, "cap-secs", 10u32)),
         "work" => {
             let a = WorkArgs {
                 pool_path: get(&m, "pool", String::new()),
@@ -72,6 +73,31 @@ fn main() {
                 out.profile, out.verif_seed, out.scenarios, out.stats.ops, out.stats.sched_points, out.stats.switches,
                 out.violations.len(), out.known_hits, out.determinism_checked - out.determinism_mismatch, out.determinism_checked,
                 out.harness_errors.len(), out.wall_s
+            );
+            for v in &out.violations {
+                println!("VIOLATION property=C13 replay={}", v.replay);
+                println!("  {} (minimised={} confirmed={} ops {} -> {})", v.line, v.minimised, v.replay_confirmed, v.steps_before, v.steps_after);
+            }
+            for e in &out.harness_errors {
+                println!("HARNESS-ERROR {}", e);
+            }
+        }
+        "worlds" => {
+            let b = WorldArgs {
+                verif_seed: get(&m, "seed", 0u64),
+                worlds: get(&m, "worlds", 72u64),
+                pool_size: get(&m, "pool-size", 1500usize),
+                workers: get(&m, "workers", 16usize),
+                work_dir: get(&m, "work-dir", "/verif/work/w".to_string()),
+                replay_dir: get(&m, "replay-dir", "/verif/replays".to_string()),
+                known_path: get(&m, "known", "/verif/known_findings.json".to_string()),
+                out_path: get(&m, "out", String::new()),
+            };
+            let out = worlds_main(&b);
+            println!(
+                "BATCH engine=W profile={} worlds={} orders_covered={}/24 ops={} violations={} known={:?} cross_world_groups={} log_mismatch={} harness_errors={} wall={:.1}s",
+                out.profile, out.worlds, out.orders_covered, out.stats.ops, out.violations.len(), out.known_hits,
+                out.cross_world_groups, out.cross_world_log_mismatch, out.harness_errors.len(), out.wall_s
             );
             for v in &out.violations {
                 println!("VIOLATION property=C13 replay={}", v.replay);
